@@ -29,6 +29,7 @@ use crate::common::{self, vclock, Ctx, Evidence, Report, Tier};
 
 const PROTO: u16 = 0x7777;
 const HORIZON_US: u64 = 60_000_000;
+const NODE_BY: u64 = 0xB15A_0001;
 
 #[derive(Clone, Copy, Debug, PartialEq, Eq, Hash)]
 enum Behaviour {
@@ -59,6 +60,9 @@ struct Cfg {
     behaviour: Behaviour,
     messages: usize,
     strategy: Strategy,
+    /// further sessions at the sender, which the adversary may close (a CloseSession status report
+    /// from their peer) at any quiescent point: no business of the exchange under test
+    bystanders: usize,
 }
 
 #[derive(Default, Debug)]
@@ -112,6 +116,11 @@ impl ExchangeHandler for Handler {
 }
 
 struct World {
+    /// number of bystander exchanges the sender's application has been told to abandon
+    abandon: Rc<std::cell::Cell<usize>>,
+    /// bystander exchanges whose send is still in progress (bit i)
+    by_sending: Rc<std::cell::Cell<u8>>,
+    a_task: usize,
     exec: Exec,
     net: Net,
     obs: Rc<RefCell<Obs>>,
@@ -135,6 +144,13 @@ fn build(cfg: &Cfg) -> World {
     nodes::install_session(ma, SeededRng::new(101), cfg.kind, NODE_A, NODE_B, 1, 2, addr_of(1), &k2, &k1).unwrap();
     nodes::install_session(mb, SeededRng::new(202), cfg.kind, NODE_B, NODE_A, 2, 1, addr_of(0), &k1, &k2).unwrap();
 
+    for i in 0..cfg.bystanders {
+        let (l, p) = (11 + 2 * i as u16, 12 + 2 * i as u16);
+        nodes::install_session(ma, SeededRng::new(111 + i as u64), SessKind::Case, NODE_A, NODE_BY + i as u64, l, p, addr_of(1), &nodes::key(0x33), &nodes::key(0x44)).unwrap();
+    }
+
+    let abandon = Rc::new(std::cell::Cell::new(0usize));
+    let by_sending = Rc::new(std::cell::Cell::new(0u8));
     let handler = Owned::new(Handler { obs: obs.clone(), behaviour: cfg.behaviour });
     let mut exec = Exec::new();
 
@@ -149,10 +165,12 @@ fn build(cfg: &Cfg) -> World {
             let _ = select(mb.run(&c, send, recv, NoNetwork), responder.run::<2>()).await;
         });
     }
-    {
+    let a_task = {
         let (send, recv) = (net.end(0), net.end(0));
         let obs2 = obs.clone();
         let cfg2 = cfg.clone();
+        let abandon2 = abandon.clone();
+        let by_sending2 = by_sending.clone();
         exec.spawn("A", async move {
             let c = nodes::crypto(SeededRng::new(103));
             let client = async {
@@ -196,10 +214,30 @@ fn build(cfg: &Cfg) -> World {
                 obs2.borrow_mut().client_done = true;
                 core::future::pending::<()>().await
             };
-            let _ = select(ma.run(&c, send, recv, NoNetwork), client).await;
-        });
-    }
-    World { exec, net, obs, _handler: handler, _responder: None, _a: a, _b: b }
+            // the sender's other business: one reliable message on each bystander session (nobody
+            // answers), given up -- the exchange is dropped with the message still unacknowledged,
+            // which makes the transport close that session -- when the adversary says so
+            let c2 = nodes::crypto(SeededRng::new(104));
+            let bystander = |i: usize| {
+                let abandon = abandon2.clone();
+                let sending = by_sending2.clone();
+                let c2 = &c2;
+                async move {
+                    if i < cfg2.bystanders {
+                        if let Ok(mut ex) = Exchange::initiate(ma, c2, NonZeroU8::new(1).unwrap(), NODE_BY + i as u64).await {
+                            let told = core::future::poll_fn(|_| if abandon.get() > i { core::task::Poll::Ready(()) } else { core::task::Poll::Pending });
+                            sending.set(sending.get() | (1 << i));
+                            let _ = select(ex.send(MessageMeta::new(PROTO, 9, true), &[0xBB; 24]), told).await;
+                            sending.set(sending.get() & !(1 << i));
+                        }
+                    }
+                    core::future::pending::<()>().await
+                }
+            };
+            let _ = embassy_futures::select::select4(ma.run(&c, send, recv, NoNetwork), client, bystander(0), bystander(1)).await;
+        })
+    };
+    World { abandon, by_sending, a_task, exec, net, obs, _handler: handler, _responder: None, _a: a, _b: b }
 }
 
 #[derive(Clone, Copy, Debug, PartialEq, Eq)]
@@ -208,9 +246,11 @@ enum Action {
     Drop(usize),
     Dup(usize),
     Tick,
+    /// the sender's application abandons its exchange on the next bystander session: the transport closes that session
+    CloseBystander,
 }
 
-fn enabled(w: &World, cfg: &Cfg, dropped_by_policy: usize) -> Vec<Action> {
+fn enabled(w: &World, cfg: &Cfg, dropped_by_policy: usize, bystanders_closed: usize) -> Vec<Action> {
     let n = w.net.inflight_len();
     let timer = vclock::next_deadline().is_some();
     let mut v = Vec::new();
@@ -233,6 +273,9 @@ fn enabled(w: &World, cfg: &Cfg, dropped_by_policy: usize) -> Vec<Action> {
         }
     } else if timer {
         v.push(Action::Tick);
+    }
+    if !v.is_empty() && bystanders_closed < cfg.bystanders && w.by_sending.get() & (1 << bystanders_closed) != 0 {
+        v.push(Action::CloseBystander);
     }
     v
 }
@@ -320,6 +363,7 @@ fn run_one(cfg: &Cfg, prefix: &[usize]) -> Result<Outcome<RunResult>, String> {
     let mut step = 0usize;
     let mut quiet_since: Option<u64> = None;
     let mut policy_drops = 0usize;
+    let mut bystanders_closed = 0usize;
     loop {
         let now = vclock::now();
         let done = w.obs.borrow().client_done;
@@ -334,7 +378,7 @@ fn run_one(cfg: &Cfg, prefix: &[usize]) -> Result<Outcome<RunResult>, String> {
         if now > 5_000_000_000 + HORIZON_US {
             break;
         }
-        let en = enabled(&w, cfg, policy_drops);
+        let en = enabled(&w, cfg, policy_drops, bystanders_closed);
         if en.is_empty() {
             break;
         }
@@ -377,6 +421,18 @@ fn run_one(cfg: &Cfg, prefix: &[usize]) -> Result<Outcome<RunResult>, String> {
                     vclock::advance_to(t);
                 }
             }
+            Action::CloseBystander => {
+                let l = 11 + 2 * bystanders_closed as u16;
+                bystanders_closed += 1;
+                let _ = l;
+                w.abandon.set(bystanders_closed);
+                w.exec.wake(w.a_task);
+                w.exec.run()?;
+                let left = w._a.get().with_state(|s| s.verif_sessions().iter().filter(|x| matches!(x.get_peer_node_id(), Some(n) if n >= NODE_BY && n < NODE_BY + 8)).count());
+                if left != cfg.bystanders - bystanders_closed {
+                    return Err(format!("harness: the bystander session was not closed ({} left, {} expected)", left, cfg.bystanders - bystanders_closed));
+                }
+            }
         }
         w.exec.run()?;
     }
@@ -409,7 +465,7 @@ fn judge(cfg: &Cfg, w: &World, fates: &Fates, trace: e1::Trace) -> Outcome<RunRe
 
     // attribute A's datagrams to messages by size; the smallest A->B datagram class is learned from
     // the first one (message 0 without a piggy-backed ack)
-    let a_out: Vec<&crate::common::sim::Dgram> = net.log.iter().filter(|d| d.from == 0).collect();
+    let a_out: Vec<&crate::common::sim::Dgram> = net.log.iter().filter(|d| d.from == 0 && d.bytes.len() > 8 && u16::from_le_bytes([d.bytes[1], d.bytes[2]]) == 2).collect();
     let base = a_out.first().map(|d| d.bytes.len().saturating_sub(16)).unwrap_or(0);
     let ctr_of = |d: &crate::common::sim::Dgram| -> u32 { u32::from_le_bytes([d.bytes[4], d.bytes[5], d.bytes[6], d.bytes[7]]) };
 
@@ -520,7 +576,7 @@ fn cfgs(tier: Tier) -> Vec<Cfg> {
             if tier == Tier::Quick && kind == SessKind::Pase && behaviour != Behaviour::Ack {
                 continue;
             }
-            v.push(Cfg { kind, behaviour, messages: 2, strategy: Strategy::Fifo });
+            v.push(Cfg { kind, behaviour, messages: 2, strategy: Strategy::Fifo, bystanders: 0 });
             if kind == SessKind::Case {
                 let ns: &[usize] = if tier == Tier::Quick { &[4, usize::MAX] } else { &[1, 2, 3, 4, 5, usize::MAX] };
                 for from in [0usize, 1] {
@@ -528,10 +584,20 @@ fn cfgs(tier: Tier) -> Vec<Cfg> {
                         if tier == Tier::Quick && behaviour != Behaviour::Ack && n != usize::MAX {
                             continue;
                         }
-                        v.push(Cfg { kind, behaviour, messages: 2, strategy: Strategy::DropFirst { from, n } });
+                        v.push(Cfg { kind, behaviour, messages: 2, strategy: Strategy::DropFirst { from, n }, bystanders: 0 });
                     }
                 }
             }
+        }
+    }
+    // another session of the sender goes away while the exchange under test is in a back-off wait
+    for behaviour in [Behaviour::Ack, Behaviour::Echo] {
+        let ns: &[usize] = if tier == Tier::Quick { &[1] } else { &[1, 2, 4] };
+        for &n in ns {
+            if tier == Tier::Quick && behaviour != Behaviour::Ack {
+                continue;
+            }
+            v.push(Cfg { kind: SessKind::Case, behaviour, messages: 2, strategy: Strategy::DropFirst { from: 0, n }, bystanders: 2 });
         }
     }
     v
@@ -542,7 +608,7 @@ fn cfg_json(c: &Cfg) -> Value {
         Strategy::Fifo => (-1i64, 0u64),
         Strategy::DropFirst { from, n } => (from as i64, n.min(1_000_000) as u64),
     };
-    json!({"kind": format!("{:?}", c.kind), "behaviour": format!("{:?}", c.behaviour), "messages": c.messages, "drop_from": sf, "drop_n": sn})
+    json!({"kind": format!("{:?}", c.kind), "behaviour": format!("{:?}", c.behaviour), "messages": c.messages, "drop_from": sf, "drop_n": sn, "bystanders": c.bystanders})
 }
 
 fn cfg_from(v: &Value) -> Cfg {
@@ -559,6 +625,7 @@ fn cfg_from(v: &Value) -> Cfg {
             Some(f) if f >= 0 => Strategy::DropFirst { from: f as usize, n: match v["drop_n"].as_u64().unwrap_or(0) { 1_000_000 => usize::MAX, x => x as usize } },
             _ => Strategy::Fifo,
         },
+        bystanders: v["bystanders"].as_u64().unwrap_or(0) as usize,
     }
 }
 
@@ -615,10 +682,10 @@ pub fn run(ctx: &Ctx) -> i32 {
     if nonce {
         // pipelined client against an acknowledge-then-reply handler, under every loss policy
         let ns: &[usize] = if ctx.tier == Tier::Quick { &[1, 2] } else { &[1, 2, 3, 4] };
-        all_cfgs.push(Cfg { kind: SessKind::Case, behaviour: Behaviour::AckThenReply, messages: 2, strategy: Strategy::Fifo });
+        all_cfgs.push(Cfg { kind: SessKind::Case, behaviour: Behaviour::AckThenReply, messages: 2, strategy: Strategy::Fifo, bystanders: 0 });
         for from in [0usize, 1] {
             for &n in ns {
-                all_cfgs.push(Cfg { kind: SessKind::Case, behaviour: Behaviour::AckThenReply, messages: 2, strategy: Strategy::DropFirst { from, n } });
+                all_cfgs.push(Cfg { kind: SessKind::Case, behaviour: Behaviour::AckThenReply, messages: 2, strategy: Strategy::DropFirst { from, n }, bystanders: 0 });
             }
         }
     }
